@@ -382,7 +382,16 @@ static void sec_cassini(Ctx& c, uint64_t idx) {
   vh::Rng& r = c.rng;
   EllCfg& e = idx < ells().size() * 4 ? ells()[idx % ells().size()] : pick_ell(r);
   Centre ce = pick_centre(r);
-  CassiniSoldner cs(ce.lat0, ce.lon0, *e.g);
+  // half of the objects reach their centre through Reset on a USED object (another centre first) or on one constructed without a
+  // centre (Init() false; its Forward/Reverse return without writing): everything below then judges the state Reset left behind
+  const int how = (int)r.below(4);       // 0, 1: constructed at the centre; 2: constructed without a centre; 3: constructed at another centre
+  CassiniSoldner cs = how < 2 ? CassiniSoldner(ce.lat0, ce.lon0, *e.g) : how == 2 ? CassiniSoldner(*e.g) : [&]() { Centre o = pick_centre(r); return CassiniSoldner(o.lat0, o.lon0, *e.g); }();
+  if (!cs.Init()) {
+    double x = vh::sentinel(1), y = vh::sentinel(2), la = vh::sentinel(3), lo = vh::sentinel(4); cs.Forward(10, 20, x, y); cs.Reverse(1000, 2000, la, lo);
+    (void)x; (void)y; (void)la; (void)lo;      // (driven for the sanitizers only: what an uninitialised object returns is not specified)
+    c.event("cassini: object constructed without a centre, then Reset");
+  }
+  if (how >= 2 || r.coin(0.2)) { if (cs.Init()) { Centre o = pick_centre(r); cs.Reset(o.lat0, o.lon0); } cs.Reset(ce.lat0, ce.lon0); c.event("cassini: centre set through Reset on a used object"); }
   if (!cs.Init() || !(cs.LatitudeOrigin() == ce.lat0)) c.viol("oracle:C17/cassini/Reset-origin", e.name, J().f("lat0", ce.lat0).f("lon0", ce.lon0));
   const double Q = e.qm, sc = e.a / gh::WGS84_A;
   std::string cy, cx; double y, x; bool reverse_only = false;
